@@ -22,7 +22,7 @@ RULE = (
     "functions with >= 1 name of each of >= 3 provenances; distinct = distinct (function source, identifier)."
 )
 ASSUMPTIONS = [
-    "Names that occur only inside nested def / lambda / comprehension scopes are not in f's own symbol table and are not asserted either way.",
+    "Names that occur only inside nested def / lambda / comprehension scopes are not in f's own symbol table and are not asserted either way; a closure variable of f that only a nested def or class body reads IS asserted (it is free in f), one that is merely declared nonlocal and never used is not.",
     "Python's symtable is the arbiter of scoping; a name declared `global` in f is 'external' even when f assigns it.",
 ]
 MECHANISMS = {}
@@ -40,6 +40,19 @@ def f_table(src):
         return None
 
     return find(top, ["factory", "f"]) or find(top, ["f"])
+
+
+def nested_reads(tab, name):
+    """A class body or function nested in `tab` reads the free variable `name` (so the enclosing
+    function's body reads it, textually, although its own statements do not)."""
+    for ch in tab.get_children():
+        try:
+            sym = ch.lookup(name)
+        except KeyError:
+            continue
+        if sym.is_free() and (sym.is_referenced() or nested_reads(ch, name)):
+            return True
+    return False
 
 
 def expected_provenance(sym):
@@ -98,7 +111,7 @@ def check_program(m, mod, res, case_base, icount):
         exp = expected_provenance(sym)
         if exp is None:
             continue
-        if not (sym.is_referenced() or sym.is_assigned() or sym.is_parameter() or sym.is_imported()):
+        if not (sym.is_referenced() or sym.is_assigned() or sym.is_parameter() or sym.is_imported() or (sym.is_free() and nested_reads(tab, name))):
             continue  # declared (global/nonlocal) but neither read nor bound by the body
         case = dict(case_base, name=name, expected=exp)
         res.evaluations += 1
@@ -122,6 +135,8 @@ def check_program(m, mod, res, case_base, icount):
         finally:
             prb.__exit__(None, None, None)
         res.count("prov_" + exp)
+        if exp == "closure" and not sym.is_referenced():
+            res.count("closure_names_read_only_by_nested_scopes")
     if len(provs) >= 3:
         res.nontrivial_case(m["src"])
     # names occurring nowhere
